@@ -793,6 +793,8 @@ class Interp:
                 base._attrs["__setitem__"](key, v, None, st)
             elif isinstance(base, Opaque):
                 pass
+            elif isinstance(base, Vec):
+                self._vec_store(base, key, v, st)
             else:
                 self.fail(st, f"store into {base!r}")
         elif isinstance(t, ast.Attribute):
@@ -802,6 +804,27 @@ class Interp:
             self.fail(st, "starred assignment outside the grammar")
         else:
             self.fail(st, "assignment target outside the grammar")
+
+    def _vec_store(self, base: Vec, key, v, st):
+        """store into a fixed-size array: integer indices, or paired ranges (diagonal)"""
+        seqs = []
+        for k in key:
+            if isinstance(k, tuple) and len(k) == 2 and k[0] == "range":
+                a = [to_py(x) for x in k[1]]
+                if not all(isinstance(x, int) for x in a):
+                    self.fail(st, "symbolic range in an array store")
+                seqs.append(list(range(*a)))
+            elif isinstance(to_py(k), int):
+                seqs.append(None if False else [to_py(k)])
+            else:
+                self.fail(st, f"store index {k!r} into a fixed-size array")
+        n = max(len(q) for q in seqs)
+        for j in range(n):
+            idx = [q[j] if len(q) > 1 else q[0] for q in seqs]
+            tgt = base
+            for i in idx[:-1]:
+                tgt = tgt.items[i]
+            tgt.items[idx[-1]] = v
 
     def _subview(self, base: SymArray, key, node):
         if base.slots is None:
@@ -1909,7 +1932,7 @@ class Interp:
                 return WholeArr("arr0d", I.as_expr(x))
             return x
 
-        def _prod(x):
+        def _prod(x, axis=None, **kw):
             tot = 1
             for v in I._iterate(x, None):
                 tot = I.binop(ast.Mult(), tot, v)
